@@ -1141,7 +1141,7 @@ func genC17(c *Ctx) {
 					e.c.Clunk(df)
 				}
 				ep = os.Symlink(target, filepath.Join(twin, dir, name))
-				if e9 != nil && ep != nil {
+				if werr == nil && e9 != nil && ep != nil { // the Rerror answers the Tcreate itself, not the walk to its directory
 					if ee, ok := e9.(*g.Error); ok && ee.Errornum != errnoOf(ep) {
 						c.oracleFail("C17/errno", fmt.Sprintf("%s: Rerror carries %d, the POSIX operation failed with %d (%v)", what, ee.Errornum, errnoOf(ep), ep), line)
 					}
@@ -1172,7 +1172,7 @@ func genC17(c *Ctx) {
 					e.c.Clunk(df)
 				}
 				ep = os.Link(filepath.Join(twin, src), filepath.Join(twin, name))
-				if e9 != nil && ep != nil {
+				if werr == nil && werr2 == nil && e9 != nil && ep != nil {
 					if ee, ok := e9.(*g.Error); ok && ee.Errornum != errnoOf(ep) {
 						c.oracleFail("C17/errno", fmt.Sprintf("%s: Rerror carries %d, the POSIX operation failed with %d (%v)", what, ee.Errornum, errnoOf(ep), ep), line)
 					}
@@ -1228,10 +1228,11 @@ func genC17(c *Ctx) {
 			case 2: // remove
 				p := live[r.Intn(len(live))]
 				what = "remove " + p
+				there := exists(filepath.Join(e.root, p)) // else the Rerror answers the walk, not the Tremove
 				e9 = e.c.FRemove(p)
 				ep = os.Remove(filepath.Join(twin, p))
 				os.Remove(filepath.Join(ptree, p)) // no plan to speak of: remove(3)
-				if dotu && e9 != nil && ep != nil {
+				if there && dotu && e9 != nil && ep != nil {
 					if ee, ok := e9.(*g.Error); ok && ee.Errornum != errnoOf(ep) {
 						c.oracleFail("C17/errno", fmt.Sprintf("%s: Rerror carries %d, the POSIX operation failed with %d (%v)", what, ee.Errornum, errnoOf(ep), ep), line)
 					}
